@@ -117,6 +117,16 @@ RENAME_CORPUS = [
      "src": "fun t(): Int {\n  let e = 7\n  try { throw(\"x\") } catch (e) { 0 }\n  e\n}\nprintln(string_repr(t()))\n"},
     {"what": "non-ASCII text before the occurrences", "at": "let n", "delta": 4, "count": 3,
      "src": "fun u(): Int {\n  let s = \"\u00e9\U0001F600\"  let n = 1\n  println(s)  n + n\n}\nprintln(string_repr(u()))\n"},
+    {"what": "variable whose shadowing let has a type hint and mentions the outer variable on its right-hand side", "at": "let total = 10", "delta": 4, "count": 5,
+     "src": "fun main() {\n  let total = 10\n  let add = fun(n: Int): Int { n + total }\n  if total > 5 {\n    let total: Int = total * 2\n    println(string_repr(add(total)))\n  }\n  println(string_repr(total))\n}\nmain()\n"},
+    {"what": "type-hinted shadowing let whose right-hand side mentions the outer variable", "at": "let total: Int", "delta": 4, "count": 2,
+     "src": "fun main() {\n  let total = 10\n  let add = fun(n: Int): Int { n + total }\n  if total > 5 {\n    let total: Int = total * 2\n    println(string_repr(add(total)))\n  }\n  println(string_repr(total))\n}\nmain()\n"},
+    {"what": "parameter shadowed twice by lets that read it (no hint, then hint)", "at": "fun w(x", "delta": 6, "count": 2,
+     "src": "fun w(x: Int): Int {\n  let x = x + 1\n  let x: Int = x * 3\n  x\n}\nprintln(string_repr(w(2)))\n"},
+    {"what": "first shadowing let, read by the hinted let that shadows it", "at": "let x = x", "delta": 4, "count": 2,
+     "src": "fun w(x: Int): Int {\n  let x = x + 1\n  let x: Int = x * 3\n  x\n}\nprintln(string_repr(w(2)))\n"},
+    {"what": "hinted let shadowing a let, read by the last expression", "at": "let x: Int", "delta": 4, "count": 2,
+     "src": "fun w(x: Int): Int {\n  let x = x + 1\n  let x: Int = x * 3\n  x\n}\nprintln(string_repr(w(2)))\n"},
 ]
 BOUNDED = [
     {"name": "rename_corpus", "kind": "rename-corpus", "props": ["C19"], "input": RENAME_CORPUS, "n_inputs": len(RENAME_CORPUS) + 80, "prelude_collisions": True, "min_inputs": len(RENAME_CORPUS) + 20,
